@@ -9,7 +9,9 @@ import (
 	"testing"
 
 	"github.com/99designs/gqlgen/graphql/handler"
+	"github.com/99designs/gqlgen/graphql/handler/lru"
 	"github.com/99designs/gqlgen/graphql/handler/transport"
+	"github.com/vektah/gqlparser/v2/ast"
 	"github.com/vektah/gqlparser/v2/gqlerror"
 	"pgregory.net/rapid"
 
@@ -55,6 +57,10 @@ type Case struct {
 	ExtraHdr   bool              `json:"extra_header"`
 	Order      []string          `json:"transport_order"`
 	Variables  string            `json:"variables"`
+	// QueryCache: the server caches parsed documents (as handler.NewDefaultServer does); Repeat: the
+	// same request is sent this many times in a row, every answer must satisfy the contract
+	QueryCache bool `json:"query_cache,omitempty"`
+	Repeat     int  `json:"repeat,omitempty"`
 }
 
 func (c Case) document() string {
@@ -131,6 +137,9 @@ func buildHandler(s *proj.Server, c Case, recovers *atomic.Int64) *handler.Serve
 			h.AddTransport(transport.Options{})
 		}
 	}
+	if c.QueryCache {
+		h.SetQueryCache(lru.New[*ast.QueryDocument](64))
+	}
 	h.SetRecoverFunc(func(ctx context.Context, err any) error {
 		recovers.Add(1)
 		return gqlerror.Errorf("%s", proj.RecoverMsg(err))
@@ -146,6 +155,19 @@ func check(c Case) *vfrun.Failure {
 	s := ss[0]
 	var recovers atomic.Int64
 	h := buildHandler(s, c, &recovers)
+	for attempt := 0; attempt <= c.Repeat; attempt++ {
+		if f := checkAttempt(c, s, h, &recovers, attempt); f != nil {
+			return f
+		}
+	}
+	if c.Repeat > 0 && c.QueryCache {
+		vfrun.Label("repeated-with-query-cache")
+	}
+	return nil
+}
+
+func checkAttempt(c Case, s *proj.Server, h *handler.Server, recoversP *atomic.Int64, attempt int) *vfrun.Failure {
+	recovers := recoversP
 	doc := c.document()
 	req := hsrv.Req{Transport: c.Transport, Query: doc, HasQuery: true, OpName: c.OpName, HasOpName: c.HasOpName, Variables: c.Variables, Headers: map[string]string{}}
 	if c.HasAccept {
@@ -165,7 +187,7 @@ func check(c Case) *vfrun.Failure {
 	s.U.SetExec(e)
 	res := hsrv.Serve(h, hr)
 	vfrun.Eval()
-	desc := fmt.Sprintf("%s %q operationName=%v/%q accept=%v/%q respCT=%q vars=%s -> %d %q %s", c.Transport, doc, c.HasOpName, c.OpName, c.HasAccept, c.Accept, c.RespCT, c.Variables, res.Status, res.Header.Get("Content-Type"), res.Body)
+	desc := fmt.Sprintf("[attempt %d, query cache %v] %s %q operationName=%v/%q accept=%v/%q respCT=%q vars=%s -> %d %q %s", attempt, c.QueryCache, c.Transport, doc, c.HasOpName, c.OpName, c.HasAccept, c.Accept, c.RespCT, c.Variables, res.Status, res.Header.Get("Content-Type"), res.Body)
 	ran := e.Keys("R")
 	if recovers.Load() != 0 {
 		return vfrun.Failf("http.recover-hook", "%s: recover hook ran", desc)
@@ -341,6 +363,8 @@ func gen(t *rapid.T) Case {
 	c.Anonymous = n == 1 && rapid.Bool().Draw(t, "anon")
 	c.Damage = rapid.SampledFrom([]string{"", "", "", "parse", "validation", "variable"}).Draw(t, "damage")
 	c.Transport = rapid.SampledFrom([]string{"get", "get", "post", "post", "graphql", "urlencoded"}).Draw(t, "transport")
+	c.QueryCache = rapid.Bool().Draw(t, "querycache")
+	c.Repeat = rapid.SampledFrom([]int{0, 0, 1, 2}).Draw(t, "repeat")
 	switch rapid.IntRange(0, 3).Draw(t, "opname") {
 	case 0:
 	case 1, 2:
